@@ -606,12 +606,21 @@ class World(object):
             before = list(c.bundles)
 
             def run():
+                self.den = None
                 try:
                     c.add_bundle(arg, ident)
                 finally:
                     for nb in c.bundles:
                         if nb is not arg and all(nb is not x for x in before):
                             self.h[a["out"]] = nb
+                    if isinstance(ident, str) and arg.is_bundle():
+                        # what the attached bundle makes of the requested spelling (its renamed-prefix
+                        # map is private state the logged tables cannot show)
+                        try:
+                            q = arg.valid_qualified_name(ident)
+                            self.den = uri_segs(q.uri) if q is not None else []
+                        except Exception:
+                            self.den = None
                 return none
             return run
         if op in ("Flattened", "Unified", "DocFromRecs"):
@@ -734,6 +743,8 @@ class World(object):
               "parents": self.parents, "reres": self.reres()}
         st["look"], st["typed"], st["copy"] = self.lookups()
         if a["op"] == "GetRecord" and exc == "none":
+            st["den"] = self.den
+        if a["op"] == "AddBundle" and getattr(self, "den", None) is not None:
             st["den"] = self.den
         if a["op"] == "RT":
             st.update(self.rt)
